@@ -12,3 +12,6 @@ INVARIANT J_KmPartition
 INVARIANT J_KmNearest
 INVARIANT J_HierPartition
 INVARIANT J_HierNearest
+INVARIANT J_JobDbDisjoint
+INVARIANT J_JobDbGrown
+INVARIANT J_JobDbCoreClustered
